@@ -93,16 +93,34 @@ package alloctxn
 //@   requires [R3-after-commit] cphase == 2 || (len(atxn.freeInums) == 0 && len(atxn.freeBnums) == 0) @C01 @C05
 //@   preserves [allocInv] allocInv() @C15 @C04
 //@   modifies abits
-//@   loop 0 invariant allocInv()
-//@   loop 1 invariant allocInv()
+//@   ensures [F4-inums] forall k uint64 :: k < len(atxn.freeInums) ==> !abits[theIalloc][atxn.freeInums[k]] @C05 @C09 @C10
+//@   ensures [F4-blocks] forall k uint64 :: k < len(atxn.freeBnums) ==> !abits[theBalloc][atxn.freeBnums[k]] @C05 @C09 @C10
+//@   ensures [F4-only-inums] forall n uint64 :: (forall k uint64 :: k < len(atxn.freeInums) ==> atxn.freeInums[k] != n) ==> abits[theIalloc][n] == old(abits)[theIalloc][n] @C05 @C09 @C10
+//@   ensures [F4-only-blocks] forall n uint64 :: (forall k uint64 :: k < len(atxn.freeBnums) ==> atxn.freeBnums[k] != n) ==> abits[theBalloc][n] == old(abits)[theBalloc][n] @C05 @C09 @C10
+//@   loop 0 invariant allocInv() && uint64(rangeindex+1) <= len(atxn.freeInums) && abits[theBalloc] == old(abits)[theBalloc]
+//@   loop 0 invariant [done] forall k uint64 :: k < uint64(rangeindex+1) ==> !abits[theIalloc][atxn.freeInums[k]]
+//@   loop 0 invariant [only] forall n uint64 :: (forall k uint64 :: k < uint64(rangeindex+1) ==> atxn.freeInums[k] != n) ==> abits[theIalloc][n] == old(abits)[theIalloc][n]
+//@   loop 1 invariant allocInv() && uint64(rangeindex+1) <= len(atxn.freeBnums)
+//@   loop 1 invariant [idone] (forall k uint64 :: k < len(atxn.freeInums) ==> !abits[theIalloc][atxn.freeInums[k]]) && (forall n uint64 :: (forall k uint64 :: k < len(atxn.freeInums) ==> atxn.freeInums[k] != n) ==> abits[theIalloc][n] == old(abits)[theIalloc][n])
+//@   loop 1 invariant [done] forall k uint64 :: k < uint64(rangeindex+1) ==> !abits[theBalloc][atxn.freeBnums[k]]
+//@   loop 1 invariant [only] forall n uint64 :: (forall k uint64 :: k < uint64(rangeindex+1) ==> atxn.freeBnums[k] != n) ==> abits[theBalloc][n] == old(abits)[theBalloc][n]
 
 //@ spec (*AllocTxn).PostAbort
 //@   props C05 C09 C11
 //@   requires atxnInv(atxn) && listsValid(atxn)
 //@   preserves [allocInv] allocInv() @C15 @C04
 //@   modifies abits
-//@   loop 0 invariant allocInv()
-//@   loop 1 invariant allocInv()
+//@   ensures [A3-inums] forall k uint64 :: k < len(atxn.allocInums) ==> !abits[theIalloc][atxn.allocInums[k]] @C05 @C09 @C10
+//@   ensures [A3-blocks] forall k uint64 :: k < len(atxn.allocBnums) ==> !abits[theBalloc][atxn.allocBnums[k]] @C05 @C09 @C10
+//@   ensures [A3-only-inums] forall n uint64 :: (forall k uint64 :: k < len(atxn.allocInums) ==> atxn.allocInums[k] != n) ==> abits[theIalloc][n] == old(abits)[theIalloc][n] @C05 @C09 @C10
+//@   ensures [A3-only-blocks] forall n uint64 :: (forall k uint64 :: k < len(atxn.allocBnums) ==> atxn.allocBnums[k] != n) ==> abits[theBalloc][n] == old(abits)[theBalloc][n] @C05 @C09 @C10
+//@   loop 0 invariant allocInv() && uint64(rangeindex+1) <= len(atxn.allocInums) && abits[theBalloc] == old(abits)[theBalloc]
+//@   loop 0 invariant [done] forall k uint64 :: k < uint64(rangeindex+1) ==> !abits[theIalloc][atxn.allocInums[k]]
+//@   loop 0 invariant [only] forall n uint64 :: (forall k uint64 :: k < uint64(rangeindex+1) ==> atxn.allocInums[k] != n) ==> abits[theIalloc][n] == old(abits)[theIalloc][n]
+//@   loop 1 invariant allocInv() && uint64(rangeindex+1) <= len(atxn.allocBnums)
+//@   loop 1 invariant [idone] (forall k uint64 :: k < len(atxn.allocInums) ==> !abits[theIalloc][atxn.allocInums[k]]) && (forall n uint64 :: (forall k uint64 :: k < len(atxn.allocInums) ==> atxn.allocInums[k] != n) ==> abits[theIalloc][n] == old(abits)[theIalloc][n])
+//@   loop 1 invariant [done] forall k uint64 :: k < uint64(rangeindex+1) ==> !abits[theBalloc][atxn.allocBnums[k]]
+//@   loop 1 invariant [only] forall n uint64 :: (forall k uint64 :: k < uint64(rangeindex+1) ==> atxn.allocBnums[k] != n) ==> abits[theBalloc][n] == old(abits)[theBalloc][n]
 
 //@ spec (*AllocTxn).ReadBlock
 //@   props C01 C11
